@@ -61,6 +61,7 @@ def check_C01(ctx, tier):
     A.rule_A_SIBLINGS(ctx, ctx.repo)       # what cache.load() reads (__asdict__ / __getitem__) is the value, decoded the same way by every reader
     A.rule_A_CODEC_CONFIG(ctx, ctx.repo)         # ... decided by the archive's settings, not by what the value looks like
     A.rule_A_SETTINGS_EXPLICIT(ctx, ctx.repo)     # ... which are the ones the caller passed, not ones guessed from the archive's name
+    A.rule_A_ZSTREAM(ctx, ctx.repo)               # ... and compressed entries are decompressed whole
     ctx.require_instances('W-KEY', 36, 'key uses')
     ctx.require_instances('W-ARGS', 12, 'evaluation sites')
     ctx.assume('an entry (k -> v) in memory or archive satisfies v = f(a) for K(a) = k at the start of the call (inductive hypothesis)')
@@ -160,6 +161,7 @@ def check_C07(ctx, tier):
     A.rule_A_SIBLINGS(ctx, ctx.repo)       # ... through the same encoders whichever writer (update / __setitem__) is used
     A.rule_A_CODEC_CONFIG(ctx, ctx.repo)         # ... decided by the archive's settings, not by what the value looks like
     A.rule_A_SETTINGS_EXPLICIT(ctx, ctx.repo)     # ... which are the ones the caller passed, not ones guessed from the archive's name
+    A.rule_A_ZSTREAM(ctx, ctx.repo)               # ... and compressed entries are decompressed whole
     return ('Every DEL(v)/CLEAR on a path with an archive attached is preceded by DUMP(v)/DUMP(*) with no intervening store; wrappers '
             'and management closures never touch the archive except through cache.dump/load.')
 
@@ -374,6 +376,7 @@ def check_C03(ctx, tier):
     A.rule_A_SIBLINGS(ctx, ctx.repo)              # get / pop / __asdict__ decode what __getitem__ decodes; update encodes what __setitem__ encodes
     A.rule_A_CODEC_CONFIG(ctx, ctx.repo)         # ... decided by the archive's settings, not by what the value looks like
     A.rule_A_SETTINGS_EXPLICIT(ctx, ctx.repo)     # ... which are the ones the caller passed, not ones guessed from the archive's name
+    A.rule_A_ZSTREAM(ctx, ctx.repo)               # ... and compressed entries are decompressed whole
     A.rule_A_EQ(ctx, ctx.repo, cache)
     A.rule_A_NOCACHE(ctx, ctx.repo, cache)        # every answer comes from the store: no handle-local table that a later delete / store leaves stale
     A.rule_A_FNAME(ctx, ctx.repo, cache, aliasing=True)     # distinct keys keep distinct entry names (no new information loss in the key -> name map)
@@ -403,6 +406,7 @@ def check_C04(ctx, tier):
     A.rule_A_SIBLINGS(ctx, ctx.repo)               # ... in every reader of the dict interface
     A.rule_A_CODEC_CONFIG(ctx, ctx.repo)         # ... decided by the archive's settings, not by what the value looks like
     A.rule_A_SETTINGS_EXPLICIT(ctx, ctx.repo)     # ... which are the ones the caller passed, not ones guessed from the archive's name
+    A.rule_A_ZSTREAM(ctx, ctx.repo)               # ... and compressed entries are decompressed whole
     A.rule_A_GETKEY(ctx, ctx.repo)                 # ... and lists it under the key it was stored with
     A.rule_A_SCHEMA(ctx, ctx.repo)                 # ... with the value written last (row order of the sqlite table)
     A.rule_A_GLOBAL(ctx, ctx.repo)                 # ... from the store, not from a process-wide table of objects read earlier (klepto/_pickle.py included)
